@@ -479,7 +479,9 @@ async fn s_two_waiters(h: &mut Host) -> Result<(), Fail> {
 }
 
 /// minimal HTTP/1.1 endpoint for push deliveries: hands every request body to the scenario and answers 200
-async fn push_endpoint() -> Result<(String, tokio::sync::mpsc::UnboundedReceiver<Vec<u8>>), Fail> {
+async fn push_endpoint() -> Result<(String, tokio::sync::mpsc::UnboundedReceiver<Vec<u8>>), Fail> { push_endpoint_delayed(0).await }
+/// `delay_ms`: the endpoint answers each request only after that long (a slow consumer)
+async fn push_endpoint_delayed(delay_ms: u64) -> Result<(String, tokio::sync::mpsc::UnboundedReceiver<Vec<u8>>), Fail> {
     use tokio::io::{AsyncReadExt, AsyncWriteExt};
     let l = tokio::net::TcpListener::bind("127.0.0.1:0").await.map_err(setup("bind push endpoint"))?;
     let port = l.local_addr().map_err(setup("addr"))?.port();
@@ -506,6 +508,7 @@ async fn push_endpoint() -> Result<(String, tokio::sync::mpsc::UnboundedReceiver
                     let body = buf[head_end..head_end + len].to_vec();
                     buf.drain(..head_end + len);
                     let _ = tx.send(body);
+                    if delay_ms > 0 { tokio::time::sleep(Duration::from_millis(delay_ms)).await; }
                     if sock.write_all(b"HTTP/1.1 200 OK\r\ncontent-length: 0\r\n\r\n").await.is_err() { return; }
                 }
             });
@@ -576,6 +579,21 @@ async fn s_long_walk(h: &mut Host) -> Result<(), Fail> {
             if tok.is_empty() { break; }
         }
         if got != topics { return Err(f("C13", format!("ListTopics(page_size={}) walk over 1003 topics yields {} names (first difference at {:?})", size, got.len(), got.iter().zip(topics.iter()).position(|(a, b)| a != b)))); }
+    }
+    // one page with more subscriptions than a task's cooperative budget (128 operations): still in creation order
+    let hub = topics[0].clone();
+    let mut subs = Vec::new();
+    for i in 0..150 { let n = format!("projects/lw/subscriptions/s{}", i); h.sub(&n, &hub, 0, None).await.map_err(c10("CreateSubscription of an absent name on an existing topic of the same project"))?; subs.push(n); }
+    for size in [1000, 64] {
+        let mut tok = String::new();
+        let mut got = Vec::new();
+        for _ in 0..10 {
+            let r = h.subscriber.list_subscriptions(ListSubscriptionsRequest { project: "projects/lw".into(), page_size: size, page_token: tok.clone() }).await.map_err(|e| f("C13", format!("ListSubscriptions: {:?}", e.code())))?.into_inner();
+            got.extend(r.subscriptions.iter().map(|x| x.name.clone()));
+            tok = r.next_page_token;
+            if tok.is_empty() { break; }
+        }
+        if got != subs { return Err(f("C13", format!("ListSubscriptions(page_size={}) over 150 subscriptions: {} names, first difference from creation order at {:?}", size, got.len(), got.iter().zip(subs.iter()).position(|(a, b)| a != b)))); }
     }
     Ok(())
 }
@@ -748,6 +766,158 @@ async fn s_multi_stream(h: &mut Host) -> Result<(), Fail> {
     result
 }
 
+
+/// Large requests (C02, C05, C17): one unary Acknowledge with 1500 ack ids acknowledges all of them; one in-stream
+/// ModifyAckDeadline with 1200 entries whose LAST entry is malformed is rejected without applying any of the others
+async fn s_large_requests(h: &mut Host) -> Result<(), Fail> {
+    let (t, s) = ("projects/p/topics/lr", "projects/p/subscriptions/lr");
+    h.topic(t).await.map_err(c10("CreateTopic of an absent, well-formed name"))?;
+    h.sub(s, t, 0, None).await.map_err(c10("CreateSubscription of an absent name on an existing topic of the same project"))?;
+    let mut published = Vec::new();
+    for b in 0..3u8 { published.extend(h.publish(t, (0..500u32).map(|i| (vec![b, (i >> 8) as u8, i as u8], HashMap::new())).collect()).await.map_err(setup("publish"))?); }
+    // a StreamingPull with a window of 10000 takes the whole backlog of 1500: first deliveries in publish order (C08)
+    let mut held = Vec::new();
+    {
+        let first = StreamingPullRequest { subscription: s.to_string(), ack_ids: vec![], modify_deadline_seconds: vec![], modify_deadline_ack_ids: vec![], stream_ack_deadline_seconds: 0, client_id: "c".into(), max_outstanding_messages: 10_000, max_outstanding_bytes: 1_000_000_000 };
+        let mut inbound = h.subscriber.streaming_pull(async_stream::stream! { yield first; futures::future::pending::<()>().await; }).await.map_err(setup("streaming_pull"))?.into_inner();
+        while held.len() < 1500 {
+            match tokio::time::timeout(Duration::from_secs(10), inbound.message()).await {
+                Ok(Ok(Some(r))) => held.extend(r.received_messages),
+                Ok(Ok(None)) | Ok(Err(_)) => return Err(f("C01", format!("an open StreamingPull ended after {} of 1500 messages", held.len()))),
+                Err(_) => return Err(f("C01+C06", format!("an open StreamingPull (window 10000) received {} of 1500 queued messages within 10 s", held.len()))),
+            }
+        }
+        let got: Vec<String> = held.iter().map(|m| m.message.as_ref().map(|x| x.message_id.clone()).unwrap_or_default()).collect();
+        if got != published { return Err(f("C08", format!("1500 queued messages streamed to one consumer: first difference from publish order at position {:?} (delivered id {:?}, published id {:?})", got.iter().zip(published.iter()).position(|(a, b)| a != b), got.iter().zip(published.iter()).find(|(a, b)| a != b).map(|x| x.0.clone()), got.iter().zip(published.iter()).find(|(a, b)| a != b).map(|x| x.1.clone())))); }
+    }
+    if held.len() != 1500 { return Err(f("C01+C15", format!("1500 messages published, {} delivered", held.len()))); }
+    h.ack(s, held.iter().map(|m| m.ack_id.clone()).collect()).await.map_err(|e| f("C02", format!("Acknowledge of 1500 ack ids failed: {:?}", e.code())))?;
+    jump(Duration::from_secs(12)).await;
+    let back = h.pull(s, 1000, true).await.map_err(setup("pull"))?;
+    if !back.is_empty() { return Err(f("C02", format!("one Acknowledge request named 1500 outstanding deliveries and returned OK; {} of them were delivered again after the deadline", back.len()))); }
+    // in-stream modack: 3 live deliveries nacked in the first entries, 1196 unknown ids, and a malformed id at the very end
+    // (on a fresh subscription: the server side of the first stream may still be winding down)
+    let (t, s) = ("projects/p/topics/lr2", "projects/p/subscriptions/lr2");
+    h.topic(t).await.map_err(c10("CreateTopic of an absent, well-formed name"))?;
+    h.sub(s, t, 0, None).await.map_err(c10("CreateSubscription of an absent name on an existing topic of the same project"))?;
+    h.publish(t, (0..3u8).map(|i| (vec![9, i], HashMap::new())).collect()).await.map_err(setup("publish"))?;
+    let live = h.pull(s, 10, true).await.map_err(setup("pull"))?;
+    if live.len() != 3 { return Err(f("SETUP", format!("expected 3 messages, got {}", live.len()))); }
+    let mut ids: Vec<String> = live.iter().map(|m| m.ack_id.clone()).collect();
+    for k in 0..1196u64 { ids.push((5_000_000 + k).to_string()); }
+    ids.push("not-an-ack-id".to_string());
+    let secs = vec![0i32; ids.len()];
+    let first = StreamingPullRequest { subscription: s.to_string(), ack_ids: vec![], modify_deadline_seconds: vec![], modify_deadline_ack_ids: vec![], stream_ack_deadline_seconds: 0, client_id: "c".into(), max_outstanding_messages: 10, max_outstanding_bytes: 100_000_000 };
+    let bad = StreamingPullRequest { subscription: String::new(), ack_ids: vec![], modify_deadline_seconds: secs, modify_deadline_ack_ids: ids, stream_ack_deadline_seconds: 0, client_id: String::new(), max_outstanding_messages: 0, max_outstanding_bytes: 0 };
+    let mut inbound = h.subscriber.streaming_pull(async_stream::stream! { yield first; yield bad; futures::future::pending::<()>().await; }).await.map_err(setup("streaming_pull"))?.into_inner();
+    let mut rejected = false;
+    let mut leaked = 0usize;
+    for _ in 0..4 {
+        match tokio::time::timeout(Duration::from_secs(5), inbound.message()).await {
+            Ok(Err(e)) if e.code() == Code::InvalidArgument => { rejected = true; break; }
+            Ok(Err(e)) => return Err(f("C17+C05", format!("a control message with a malformed ack id ended the stream with {:?} instead of INVALID_ARGUMENT", e.code()))),
+            Ok(Ok(Some(r))) => leaked += r.received_messages.len(),
+            _ => break,
+        }
+    }
+    if !rejected { return Err(f("C17+C05", "a StreamingPull control message whose last of 1200 modifications is malformed was not rejected with INVALID_ARGUMENT".into())); }
+    let after = h.pull(s, 10, true).await.map_err(setup("pull"))?;
+    if leaked + after.len() > 0 { return Err(f("C05+C17", format!("a control message rejected with INVALID_ARGUMENT still applied {} of its modifications (nacked deliveries are back in the queue)", leaked + after.len()))); }
+    Ok(())
+}
+
+/// C03 / C05: one in-stream control message that gives up one lease (N=0) and extends another (N=60), with ack ids
+/// whose text order differs from their numeric order ("9" and "10")
+async fn s_stream_mixed_modack(h: &mut Host) -> Result<(), Fail> {
+    let (t, s) = ("projects/p/topics/smm", "projects/p/subscriptions/smm");
+    h.topic(t).await.map_err(c10("CreateTopic of an absent, well-formed name"))?;
+    h.sub(s, t, 0, None).await.map_err(c10("CreateSubscription of an absent name on an existing topic of the same project"))?;
+    h.publish(t, (1..=10u8).map(|i| (vec![i], HashMap::new())).collect()).await.map_err(setup("publish"))?;
+    let held = h.pull(s, 10, true).await.map_err(setup("pull"))?;
+    if held.len() != 10 { return Err(f("SETUP", format!("expected 10 messages, got {}", held.len()))); }
+    let by_data = |d: u8| held.iter().find(|m| m.message.as_ref().map(|x| x.data == vec![d]).unwrap_or(false)).map(|m| m.ack_id.clone());
+    let (a9, a10) = match (by_data(9), by_data(10)) { (Some(a), Some(b)) => (a, b), _ => return Err(f("C09", "deliveries do not carry the published data".into())) };
+    let first = StreamingPullRequest { subscription: s.to_string(), ack_ids: vec![], modify_deadline_seconds: vec![], modify_deadline_ack_ids: vec![], stream_ack_deadline_seconds: 0, client_id: "c".into(), max_outstanding_messages: 10, max_outstanding_bytes: 100_000_000 };
+    let ctl = StreamingPullRequest { subscription: String::new(), ack_ids: vec![], modify_deadline_seconds: vec![0, 60], modify_deadline_ack_ids: vec![a9, a10], stream_ack_deadline_seconds: 0, client_id: String::new(), max_outstanding_messages: 0, max_outstanding_bytes: 0 };
+    let mut inbound = h.subscriber.streaming_pull(async_stream::stream! { yield first; yield ctl; futures::future::pending::<()>().await; }).await.map_err(setup("streaming_pull"))?.into_inner();
+    match tokio::time::timeout(Duration::from_secs(5), inbound.message()).await {
+        Ok(Ok(Some(r))) => {
+            let datas: Vec<Vec<u8>> = r.received_messages.iter().map(|m| m.message.as_ref().map(|x| x.data.clone()).unwrap_or_default()).collect();
+            if datas != vec![vec![9u8]] { return Err(f("C05+C03", format!("control message [nack delivery of message 9, extend delivery of message 10 by 60 s]: the stream was handed {:?}, expected exactly message 9", datas))); }
+        }
+        _ => return Err(f("C05", "control message [nack message 9, extend message 10]: the nacked message did not come back".into())),
+    }
+    jump(Duration::from_secs(30)).await;    // every other original lease (10 s) has expired by now, the extended one has not
+    let mut datas: Vec<u8> = Vec::new();
+    for _ in 0..20 {
+        match tokio::time::timeout(Duration::from_millis(300), inbound.message()).await { Ok(Ok(Some(r))) => datas.extend(r.received_messages.iter().map(|m| m.message.as_ref().map(|x| x.data[0]).unwrap_or(0))), _ => break }
+    }
+    if datas.contains(&10) { return Err(f("C05+C03", "a delivery extended by 60 s was handed out again after 30 s".into())); }
+    Ok(())
+}
+
+/// C11 on the push path: once DeleteSubscription has returned, its endpoint receives nothing further (a handful of
+/// requests already in flight are tolerated); C17: a push endpoint that starts with http but is not a URL does not
+/// take the push loop (and with it every other push subscription) down
+async fn s_push_lifecycle(h: &mut Host) -> Result<(), Fail> {
+    let (t, s, good) = ("projects/p/topics/pl", "projects/p/subscriptions/pl", "projects/p/subscriptions/plgood");
+    let (slow_url, mut slow_rx) = push_endpoint_delayed(40).await?;
+    let (url, mut rx) = push_endpoint().await?;
+    h.topic(t).await.map_err(c10("CreateTopic of an absent, well-formed name"))?;
+    h.sub(s, t, 0, Some(&slow_url)).await.map_err(c10("CreateSubscription (push) of an absent name on an existing topic"))?;
+    for b in 0..2u8 { h.publish(t, (0..400u32).map(|i| (vec![b, (i >> 8) as u8, i as u8], HashMap::new())).collect()).await.map_err(setup("publish"))?; }
+    // wait until the dispatch of the backlog is under way (one request every <= 5 ms to a slow endpoint), then delete
+    let mut before = 0usize;
+    while before < 20 { match tokio::time::timeout(Duration::from_secs(10), slow_rx.recv()).await { Ok(Some(_)) => before += 1, _ => return Err(f("SETUP", format!("push endpoint received {} messages within 10 s", before))) } }
+    h.subscriber.delete_subscription(DeleteSubscriptionRequest { subscription: s.into() }).await.map_err(|e| f("C11+C10", format!("DeleteSubscription failed: {:?}", e.code())))?;
+    tokio::time::sleep(Duration::from_millis(200)).await;
+    while slow_rx.try_recv().is_ok() {}     // whatever was in flight when the delete returned
+    tokio::time::sleep(Duration::from_millis(1000)).await;
+    let mut late = 0usize;
+    while slow_rx.try_recv().is_ok() { late += 1; }
+    if late > 3 { return Err(f("C11", format!("{} messages were POSTed to the endpoint of a push subscription more than 200 ms after its DeleteSubscription had returned", late))); }
+    // malformed-but-accepted endpoint next to a healthy push subscription
+    for (k, bad) in ["http//127.0.0.1:9/push", "https:", "http"].iter().enumerate() {
+        match h.sub(&format!("projects/p/subscriptions/plbad{}", k), t, 0, Some(bad)).await {
+            Ok(_) => {}
+            Err(e) if e.code() == Code::InvalidArgument => {}
+            Err(e) => return Err(f("C17", format!("CreateSubscription(push_endpoint={:?}): {:?}", bad, e.code()))),
+        }
+    }
+    h.sub(good, t, 0, Some(&url)).await.map_err(c10("CreateSubscription (push) of an absent name on an existing topic"))?;
+    tokio::time::sleep(Duration::from_millis(700)).await;     // a few push rounds with the odd endpoints registered
+    while rx.try_recv().is_ok() {}
+    h.publish(t, vec![(b"still-pushing".to_vec(), HashMap::new())]).await.map_err(|e| f("C17", format!("Publish after registering odd push endpoints failed: {:?}", e.code())))?;
+    jump(Duration::from_secs(1)).await;
+    let mut ok = false;
+    for _ in 0..40 {
+        match tokio::time::timeout(Duration::from_millis(250), rx.recv()).await {
+            Ok(Some(body)) => { if let Ok(v) = serde_json::from_slice::<serde_json::Value>(&body) { if v["subscription"].as_str() == Some(good) { ok = true; break; } } }
+            _ => {}
+        }
+    }
+    if !ok { return Err(f("C17", "after a push subscription with a malformed (but accepted) endpoint was created, a healthy push subscription no longer receives its messages: the push loop is gone".into())); }
+    Ok(())
+}
+
+
+/// C13 with real parallelism: the list handlers gather per-resource answers concurrently; on a multi-threaded runtime
+/// the page must still be in creation order
+async fn s_list_order_threads(h: &mut Host) -> Result<(), Fail> {
+    let t = "projects/lo/topics/t";
+    h.topic(t).await.map_err(c10("CreateTopic of an absent, well-formed name"))?;
+    let mut subs = Vec::new();
+    for i in 0..8 { let n = format!("projects/lo/subscriptions/s{}", i); h.sub(&n, t, 0, None).await.map_err(c10("CreateSubscription of an absent name on an existing topic of the same project"))?; subs.push(n); }
+    for round in 0..40 {
+        let r = h.subscriber.list_subscriptions(ListSubscriptionsRequest { project: "projects/lo".into(), page_size: 1000, page_token: String::new() }).await.map_err(|e| f("C13", format!("ListSubscriptions: {:?}", e.code())))?.into_inner();
+        let got: Vec<String> = r.subscriptions.iter().map(|x| x.name.clone()).collect();
+        if got != subs { return Err(f("C13", format!("round {}: ListSubscriptions on a 4-thread runtime yields {:?}, creation order is {:?}", round, got, subs))); }
+        let r = h.publisher.list_topic_subscriptions(ListTopicSubscriptionsRequest { topic: t.into(), page_size: 1000, page_token: String::new() }).await.map_err(|e| f("C13", format!("ListTopicSubscriptions: {:?}", e.code())))?.into_inner();
+        if r.subscriptions != subs { return Err(f("C13+C11", format!("round {}: ListTopicSubscriptions on a 4-thread runtime yields {:?}, creation order is {:?}", round, r.subscriptions, subs))); }
+    }
+    Ok(())
+}
+
 /// C15 (streaming limit) and C17 (inconsistent control messages) on an open StreamingPull
 async fn s_stream_limits(h: &mut Host) -> Result<(), Fail> {
     let (t, s) = ("projects/p/topics/sl", "projects/p/subscriptions/sl");
@@ -800,7 +970,7 @@ async fn s_stream_limits(h: &mut Host) -> Result<(), Fail> {
 
 pub fn run_all() -> i32 {
     type Sc = fn(&mut Host) -> std::pin::Pin<Box<dyn std::future::Future<Output = Result<(), Fail>> + '_>>;
-    let multi: Vec<(&str, Sc)> = vec![("pull_publish_race", |h| Box::pin(s_pull_publish_race(h)))];
+    let multi: Vec<(&str, Sc)> = vec![("pull_publish_race", |h| Box::pin(s_pull_publish_race(h))), ("list_order_threads", |h| Box::pin(s_list_order_threads(h)))];
     let scenarios: Vec<(&str, Sc)> = vec![
         ("pull_limits", |h| Box::pin(s_pull_limits(h))),
         ("batches", |h| Box::pin(s_batches(h))),
@@ -816,6 +986,9 @@ pub fn run_all() -> i32 {
         ("cross_consumers", |h| Box::pin(s_cross_consumers(h))),
         ("stream_concurrent_publish", |h| Box::pin(s_stream_concurrent_publish(h))),
         ("multi_stream", |h| Box::pin(s_multi_stream(h))),
+        ("large_requests", |h| Box::pin(s_large_requests(h))),
+        ("stream_mixed_modack", |h| Box::pin(s_stream_mixed_modack(h))),
+        ("push_lifecycle", |h| Box::pin(s_push_lifecycle(h))),
     ];
     let n = scenarios.len() + multi.len();
     // every scenario runs; each failing one prints its own WITNESS line (the driver picks the one for the property at hand)
